@@ -270,6 +270,24 @@ def install(world):
                     return SDt(z3.simplify(o.local - off + z.off), z.off,
                                True)
                 return SDt(z3.simplify(o.local - o.off + z.off), z.off, True)
+            if name == 'timestamp' and not args:
+                # POSIX seconds of the instant; a naive receiver is read as
+                # wall time of the process local zone (offset uninterpreted)
+                if o.aware is True:
+                    inst = o.local - o.off
+                else:
+                    world.trusted_used.add(
+                        'T-dt: timestamp() of a naive datetime uses the '
+                        'process local zone (offset uninterpreted)')
+                    loc = z3.Function('tz.local_offset', z3.IntSort(),
+                                      z3.IntSort())
+                    if isinstance(o.aware, bool):
+                        inst = o.local - loc(o.local)
+                    elif it.branch(S.as_bool_term(o.aware)):
+                        inst = o.local - o.off
+                    else:
+                        inst = o.local - loc(o.local)
+                return SReal(S.fl(z3.ToReal(inst) / US))
             if name in ('weekday', 'strftime', 'isoformat', 'timetuple'):
                 f = z3.Function('dt.m_' + name, z3.IntSort(), S.Val)
                 return SVal(f(o.local))
